@@ -283,6 +283,11 @@ fn node_spans(n: &Node, path: &str, out: &mut Vec<String>) {
     }
 }
 
+fn range_of(s: &str) -> (usize, usize) {
+    let (a, b) = s.split_once("..").unwrap();
+    (a.parse().unwrap(), b.parse().unwrap())
+}
+
 pub fn run_spans(line: &str) -> String {
     let text = unhex_str(line);
     let im = match toml_edit::ImDocument::parse(text.clone()) {
@@ -326,6 +331,23 @@ pub fn run_spans(line: &str) -> String {
                         let (sk, sv) = s.split_once(':').unwrap();
                         if !(ek == sk && ev == "-") && !(ek == "-" && ev == sv) {
                             diff.push(format!("{p}:{x}!={s}"))
+                        } else if ev == "-" {
+                            // a span synthesized for a table without one of its own covers every entry below it:
+                            // keys and values of its direct entries (which in turn cover theirs)
+                            let (a, b) = range_of(sv);
+                            for c in &so {
+                                let (cp, cs) = c.split_once('=').unwrap();
+                                if cp.len() > p.len() && cp.starts_with(p) && cp.as_bytes()[p.len()] == b'/' && !cp[p.len() + 1..].contains('/') {
+                                    for part in cs.split(':') {
+                                        if part != "-" {
+                                            let (ca, cb) = range_of(part);
+                                            if ca < a || cb > b {
+                                                diff.push(format!("{cp}:{part}-outside-synthesized-{p}:{sv}"));
+                                            }
+                                        }
+                                    }
+                                }
+                            }
                         }
                     }
                     None => diff.push(format!("{p}:missing")),
